@@ -31,7 +31,7 @@ import (
 )
 
 type cliCase struct {
-	creds bool
+	creds int
 	cc    string
 	rpc   string
 	call  string
@@ -54,7 +54,7 @@ func (c cliCase) inputTokens(withAttrs bool) string {
 		}
 		a = strings.Join(parts, "/")
 	}
-	return fmt.Sprintf("cli cr=%s cc=%s rpc=%s call=%s a=%s o=%s l=%s f=%s", b01(c.creds), c.cc, c.rpc, c.call, a, c.o, c.l, c.f)
+	return fmt.Sprintf("cli cr=%s cc=%s rpc=%s call=%s a=%s o=%s l=%s f=%s", credsTok(c.creds), c.cc, c.rpc, c.call, a, c.o, c.l, c.f)
 }
 
 func parseCliCase(f []string) (cliCase, error) {
@@ -66,7 +66,7 @@ func parseCliCase(f []string) (cliCase, error) {
 		}
 		kv[t[:i]] = t[i+1:]
 	}
-	c := cliCase{creds: kv["cr"] == "1", cc: kv["cc"], rpc: kv["rpc"], call: kv["call"], a: kv["a"], o: kv["o"], l: kv["l"], f: kv["f"]}
+	c := cliCase{creds: credsOfTok(kv["cr"]), cc: kv["cc"], rpc: kv["rpc"], call: kv["call"], a: kv["a"], o: kv["o"], l: kv["l"], f: kv["f"]}
 	if strings.Contains(c.a, ":") {
 		parts := strings.Split(c.a, "/")
 		for i, s := range parts {
@@ -158,31 +158,45 @@ type clients struct {
 	by map[string]client.Client
 }
 
-func newClients(h *harness) *clients {
-	cs := &clients{h: h, by: map[string]client.Client{}}
-	for _, creds := range []bool{false, true} {
-		s := h.open
-		if creds {
-			s = h.auth
-		}
-		hostport := strings.SplitN(s.addr, ":", 2)
-		addr, err := ma.NewMultiaddr("/ip4/" + hostport[0] + "/tcp/" + hostport[1])
-		must(err)
-		for _, cc := range []string{"n", "w", "r"} {
-			cfg := &client.Config{APIAddr: addr, DisableKeepAlives: false, Timeout: 20 * time.Second, LogLevel: "error"}
-			switch cc {
-			case "w":
-				cfg.Username, cfg.Password = user0, "wrong"
-			case "r":
-				cfg.Username, cfg.Password = user0, pass0
-			}
-			c, err := client.NewDefaultClient(cfg)
-			must(err)
-			cs.by[b01(creds)+cc] = c
-		}
+func newClients(h *harness) *clients { return &clients{h: h, by: map[string]client.Client{}} }
+
+// get returns the client configured with the user / password of the header token cc (n: none; b.<user>.<pass>).
+// The bundled client sends credentials only when its Username is not empty.
+func (cs *clients) get(creds int, cc string) (client.Client, error) {
+	key := strconv.Itoa(creds) + cc
+	if c, ok := cs.by[key]; ok {
+		return c, nil
 	}
-	return cs
+	s := cs.h.server(creds)
+	hostport := strings.SplitN(s.addr, ":", 2)
+	addr, err := ma.NewMultiaddr("/ip4/" + hostport[0] + "/tcp/" + hostport[1])
+	if err != nil {
+		return nil, err
+	}
+	cfg := &client.Config{APIAddr: addr, DisableKeepAlives: false, Timeout: 20 * time.Second, LogLevel: "error"}
+	if cc != "n" {
+		f := strings.SplitN(cc, ".", 3)
+		if len(f) != 3 || f[0] != "b" {
+			return nil, fmt.Errorf("client credentials token %q", cc)
+		}
+		u, okU := authTexts[f[1]]
+		p, okP := authTexts[f[2]]
+		if !okU || !okP || u == "" {
+			return nil, fmt.Errorf("client credentials token %q", cc)
+		}
+		cfg.Username, cfg.Password = u, p
+	}
+	c, err := client.NewDefaultClient(cfg)
+	if err != nil {
+		return nil, err
+	}
+	cs.by[key] = c
+	return c, nil
 }
+
+// credential situations a client can be in (it cannot send an empty user name)
+var cliGrid = []string{"n", "b.u0.p0", "b.u0.wrong", "b.u0.e", "b.u0.p1", "b.u1.p1", "b.u1.p0", "b.nobody.p0", "b.nobody.any",
+	"b.nobody.e", "b.p0.p0", "b.p0.u0", "b.p0.e"}
 
 func canonJSON(v interface{}) string {
 	b, err := json.Marshal(v)
@@ -237,13 +251,10 @@ func expected(c cliCase, out interface{}) interface{} {
 }
 
 func (cs *clients) exec(c cliCase) (string, error) {
-	s := cs.h.open
-	if c.creds {
-		s = cs.h.auth
-	}
-	cl := cs.by[b01(c.creds)+c.cc]
-	if cl == nil {
-		return "", fmt.Errorf("no client for %s", c.cc)
+	s := cs.h.server(c.creds)
+	cl, cerr := cs.get(c.creds, c.cc)
+	if cerr != nil {
+		return "", cerr
 	}
 	w := &expWindow{from: time.Now()}
 	s.rec.reset(c.rpc, w)
@@ -430,11 +441,14 @@ var typeMasks = []int{int(api.DataType), int(api.MetaType), int(api.ClusterDAGTy
 
 func genCli(r *common.Rng, call string) cliCase {
 	c := cliCase{rpc: "ok", call: call, a: "-", o: "-", l: "-", f: "-"}
-	c.creds = r.Chance(1, 3)
-	if c.creds {
-		c.cc = []string{"n", "w", "r", "r", "r"}[r.Intn(5)]
-	} else {
-		c.cc = []string{"n", "n", "r"}[r.Intn(3)]
+	c.creds = credsFor(r, 1, 3)
+	switch {
+	case c.creds == 0:
+		c.cc = []string{"n", "n", "b.u0.p0", "b.nobody.e"}[r.Intn(4)]
+	case r.Bool():
+		c.cc = "b.u0.p0"
+	default:
+		c.cc = cliGrid[r.Intn(len(cliGrid))]
 	}
 	c.rpc = []string{"ok", "ok", "ok", "err", "nf"}[r.Intn(5)]
 	switch call {
@@ -481,14 +495,20 @@ func genCli(r *common.Rng, call string) cliCase {
 func sysCli() []cliCase {
 	var out []cliCase
 	r := common.NewRng(11)
-	sit := []struct {
-		cr bool
+	type csit struct {
+		cr int
 		cc string
-	}{{false, "n"}, {false, "r"}, {true, "n"}, {true, "w"}, {true, "r"}}
+	}
+	sit := []csit{{0, "n"}, {0, "b.u0.p0"}, {0, "b.nobody.e"}}
+	for cr := 1; cr <= 2; cr++ {
+		for _, cc := range cliGrid {
+			sit = append(sit, csit{cr, cc})
+		}
+	}
 	for _, call := range cliCalls {
 		for _, s := range sit {
 			for _, mode := range []string{"ok", "err", "nf"} {
-				if mode != "ok" && s.cr && s.cc != "r" {
+				if mode != "ok" && s.cr != 0 && s.cc != "b.u0.p0" {
 					continue
 				}
 				for rep := 0; rep < 2; rep++ {
@@ -507,14 +527,14 @@ func sysCli() []cliCase {
 		"0:0/0/r/0/u/-/-/-/-", "0:0/0/r/0/p/-/-/-/-", "0:0/0/r/0/f5/-/-/-/-", "0:0/0/r/0/z/1:2,3:0/-/-/-", "0:0/0/r/0/z/7:7/-/-/-", "0:0/0/r/0/z/0:3/-/-/-",
 		"0:0/0/r/0/z/-/5/-/-", "0:0/0/r/0/z/-/-/1,2/-", "0:0/0/r/0/z/-/-/-/1,2", "-1:-1/0/r/0/z/-/-/-/-", "0:0/0/r/0/z/-/-/-/-"}
 	for _, o := range single {
-		out = append(out, cliCase{cc: "n", rpc: "ok", call: "Pin", a: "c4", o: o, l: "-", f: "-"})
-		out = append(out, cliCase{cc: "n", rpc: "ok", call: "PinPath", a: "ipfs/c5/a", o: o, l: "-", f: "-"})
+		out = append(out, cliCase{creds: 0, cc: "n", rpc: "ok", call: "Pin", a: "c4", o: o, l: "-", f: "-"})
+		out = append(out, cliCase{creds: 0, cc: "n", rpc: "ok", call: "PinPath", a: "ipfs/c5/a", o: o, l: "-", f: "-"})
 	}
 	for _, m := range typeMasks {
-		out = append(out, cliCase{cc: "n", rpc: "ok", call: "Allocations", a: "-", o: "-", l: "-", f: strconv.Itoa(m)})
+		out = append(out, cliCase{creds: 0, cc: "n", rpc: "ok", call: "Allocations", a: "-", o: "-", l: "-", f: strconv.Itoa(m)})
 	}
 	for _, st := range simpleStatuses {
-		out = append(out, cliCase{cc: "n", rpc: "ok", call: "StatusAll", a: "-", o: "-", l: "0", f: strconv.Itoa(int(st.st))})
+		out = append(out, cliCase{creds: 0, cc: "n", rpc: "ok", call: "StatusAll", a: "-", o: "-", l: "0", f: strconv.Itoa(int(st.st))})
 	}
 	return out
 }
